@@ -8,6 +8,7 @@ mod c16;
 mod c01;
 mod c18;
 mod c17;
+mod stats;
 
 use util::Out;
 
@@ -29,6 +30,9 @@ fn main() {
         "C01" => c01::run(&mut out),
         "C18" => c18::run(&mut out),
         "C17" => c17::run(&mut out),
+        "C11" => stats::run_c11(&mut out),
+        "C12" => stats::run_c12(&mut out),
+        "C13" => stats::run_c13(&mut out),
         _ => {
             eprintln!("unknown property {prop}");
             std::process::exit(2);
